@@ -80,3 +80,12 @@ CASES += [
                  "   mLoggers.erase( std::remove_if( mLoggers.begin(), mLoggers.end(),\n      [&name]( const LogDestData& ldd) { return ldd.mName == name; }), mLoggers.end());"),
                 (LOGC, "#include \"celma/log/detail/log.hpp\"", "#include \"celma/log/detail/log.hpp\"\n#include <algorithm>")]),
 ]
+
+SL = 'src/celma/log/detail/stream_log.hpp'
+CASES += [
+    dict(id='c14-stream-level-rejects-last', prop='C14', file=SL, expect='R12',
+         old="(ll > LogLevel::fullDebug))", new="(ll >= LogLevel::fullDebug))"),
+    dict(id='c14-eq-stream-level-positive-form', prop='C14', file=SL, expect=None,
+         old="         if ((ll <= LogLevel::undefined) || (ll > LogLevel::fullDebug))\n            so.mLogMsg.setLevel( LogLevel::undefined);\n         else\n            so.mLogMsg.setLevel( ll);",
+         new="         if ((ll > LogLevel::undefined) && (ll <= LogLevel::fullDebug))\n            so.mLogMsg.setLevel( ll);\n         else\n            so.mLogMsg.setLevel( LogLevel::undefined);"),
+]
